@@ -173,7 +173,7 @@ fn main() {
         if (round + 1) % 20 == 0 && pool.len() >= 50 {
             let states: Vec<&GameState> = pool.iter().map(|x| &x.0).collect();
             let barrier = Barrier::new(THREADS);
-            let mut res: Vec<Vec<(usize, String)>> = Vec::new();
+            let mut res: Vec<Vec<(usize, String, bool)>> = Vec::new();
             std::thread::scope(|sc| {
                 let mut hs = Vec::new();
                 for t in 0..THREADS {
@@ -190,7 +190,23 @@ fn main() {
                                 Ok(d) => d,
                                 Err(p) => format!("panic:{}", p),
                             };
-                            out.push((k, d));
+                            out.push((k, d, false));
+                        }
+                        // fast phase: only the move-generation queries, many times over, so that most
+                        // of the time is spent inside the engine
+                        for _ in 0..12 {
+                            trng.shuffle(&mut order);
+                            let mut bad: Option<(usize, String)> = None;
+                            let mut last = (0usize, String::new());
+                            for &k in order.iter() {
+                                let d = match guarded(|| light_digest(states[k])) {
+                                    Ok(d) => d,
+                                    Err(p) => format!("panic:{}", p),
+                                };
+                                last = (k, d);
+                                let _ = &mut bad;
+                                out.push((last.0, last.1.clone(), true));
+                            }
                         }
                         out
                     }));
@@ -205,8 +221,19 @@ fn main() {
             }
             g.pending_pop = 0;
             for (t, r) in res.iter().enumerate() {
-                for (k, d) in r.iter() {
-                    g.tr.pdig(t + 1, pool[*k].1, d, pop);
+                // full observations are all logged; of the fast phase only disagreements with the first
+                // answer of that thread for that state, plus one sample per state (keeps the trace small)
+                let mut seen_light: std::collections::HashMap<usize, String> = std::collections::HashMap::new();
+                for (k, d, light) in r.iter() {
+                    if *light {
+                        match seen_light.get(k) {
+                            Some(prev) if prev == d => continue,
+                            _ => {
+                                seen_light.insert(*k, d.clone());
+                            }
+                        }
+                    }
+                    g.tr.pdig(t + 1, pool[*k].1, d, pop, *light);
                     pop = 0;
                 }
             }
